@@ -533,6 +533,14 @@ def call_builtin_special(ctx, fr, path, name, node):
         if not args and not node.keywords:
             yield path, ctx.mk_dict(path, smt.EMPTY_SET, z3.K(V, V.VNone), smt.EMPTY_SEQ)
             return
+        if len(args) == 1 and not node.keywords:
+            # dict(record): a shallow copy of a constant-key dictionary (records are values: the copy is the same term)
+            for p, v in ev(ctx, fr, path, args[0]):
+                if isinstance(v, Val) and (ctx.kind(v) == "VRec" or (v.ann is not None and v.ann[0] == "rec")):
+                    yield p, Val(v.t, v.ann, own="fresh", deep=False)
+                    continue
+                raise Unsupported("dict(x) of a value that is not a record")
+            return
         raise Unsupported("dict(...) with arguments")
     raise Unsupported(f"builtin {name} in this position (line {node.lineno})")
 
